@@ -1773,7 +1773,8 @@ class Pipeline:
 
         axes = self.mapspec_axes
         for name in func.mapspec.input_names:
-            if axis not in axes[name]:
+            # (an array that is nowhere indexed by name, e.g. only used as `x[:]`, has no named axes)
+            if axis not in axes.get(name, ()):
                 continue
             if name in root_args:
                 if axis in axes[name]:
